@@ -311,6 +311,9 @@ impl Engine for C07 {
             Tier::Thorough => 40000,
         }
     }
+    fn fresh_process_per_run(&self) -> bool {
+        true
+    }
     fn cpu_budget_s(&self, _tier: Tier) -> f64 {
         30.0
     }
@@ -652,7 +655,9 @@ impl Engine for C07 {
             // --- injected file-system faults
             if let Some(ff) = &r.req.fs_fault {
                 res.stats.fault(&format!("fs.{ff}"));
-                if !r.outcome.is_err() {
+                // a full device only fails a write that writes something
+                let nothing_to_write = ff == "out-dev-full" && matches!(g, Outcome::Ok(b) if b.is_empty());
+                if !r.outcome.is_err() && !nothing_to_write {
                     res.violation(
                         "damage/fs-fault-not-reported",
                         &format!("c07:fs-fault-not-reported:{ff}"),
